@@ -13,6 +13,8 @@ import (
 	"runtime"
 	"sort"
 	"sync"
+
+	"github.com/deepteams/webp/internal/verifhook"
 )
 
 // numPredictors is the number of VP8L spatial predictors to evaluate (0-13).
@@ -407,6 +409,7 @@ func ResidualImage(argb []uint32, width, height, bits, quality int, residualsBuf
 			if tyEnd > tileYSize {
 				tyEnd = tileYSize
 			}
+			verifhook.Range("predictor", 0, tileYSize, w, numWorkers, tyStart, tyEnd)
 			go func(tyStart, tyEnd int) {
 				defer wg.Done()
 				for ty := tyStart; ty < tyEnd; ty++ {
@@ -737,6 +740,7 @@ func ColorSpaceTransform(argb []uint32, width, height, bits, quality int) []uint
 			if tyEnd > tileYSize {
 				tyEnd = tileYSize
 			}
+			verifhook.Range("crosscolor", 0, tileYSize, w, numWorkers, tyStart, tyEnd)
 			go func(tyStart, tyEnd int) {
 				defer wg.Done()
 				scratch := make([]uint8, 5*maxTilePixels)
